@@ -1,6 +1,6 @@
 From Coq Require Import List Arith NArith Bool Lia.
 Import ListNotations.
-Require Import Urcu.Base.MachE.
+Require Import Urcu.Base.MachE Urcu.Gen.Generated.
 Local Open Scope N_scope.
 
 Inductive sloc := SHead | SNext (n : N).
@@ -14,7 +14,7 @@ Definition vend : N := 1.
 Inductive sop := OPush (n : N) | OPopAll.
 Inductive spc :=
 | S_Idle | P_Mb (n : N) | P_Xchg (n : N) | P_Store (n old : N) | P_Ret (b : N)
-| A_Xchg | A_Iter (cur : N) | A_Wait (cur : N).
+| A_Xchg | A_Mb (cur : N) | A_Iter (cur : N) | A_Wait (cur : N).
 Record sst := { scur : spc; stodo : list sop }.
 
 Definition sact (s : sst) : act sloc :=
@@ -25,6 +25,7 @@ Definition sact (s : sst) : act sloc :=
   | P_Store n old => AStore _ (SNext n) old
   | P_Ret b => ARet _ 0%nat b
   | A_Xchg => AXchg _ SHead vend
+  | A_Mb _ => AFence _
   | A_Iter cur => if cur =? vend then ARet _ 1%nat 0 else ALoad _ (SNext cur)
   | A_Wait _ => ARelax _
   end.
@@ -40,7 +41,8 @@ Definition snext (s : sst) (r : N) : sst :=
   | P_Xchg n => go (P_Store n r)
   | P_Store n old => go (P_Ret (if old =? vend then 0 else 1))
   | P_Ret _ => go S_Idle
-  | A_Xchg => go (A_Iter r)
+  | A_Xchg => go (if emit_legacy_mb then A_Mb r else A_Iter r)
+  | A_Mb cur => go (A_Iter cur)
   | A_Iter cur => if cur =? vend then go S_Idle else if r =? 0 then go (A_Wait cur) else go (A_Iter r)
   | A_Wait cur => go (A_Iter cur)
   end.
